@@ -741,7 +741,7 @@ Run(P0) ==
   IF ~ce.ok THEN [out |-> <<>>, status |-> "consterr", err |-> ce.err]
   ELSE LET P == [P1 EXCEPT !.cenv = ce.env]
            m == FnOf(P, "main").d
-           r == ExecBlock(m.body, [env |-> <<ce.env, <<>>>>, out |-> <<>>, sig |-> "n", err |-> "", ret |-> NoneVal, fuel |-> 24], P) IN
+           r == ExecBlock(m.body, [env |-> <<ce.env, <<>>>>, out |-> <<>>, sig |-> "n", err |-> "", ret |-> NoneVal, fuel |-> 60], P) IN
        [out |-> r.out, status |-> IF r.sig = "err" THEN "error" ELSE "done", err |-> r.err]
 Unspecified == {Inexact, Fuel, "UNSPECIFIED: unknown expression kind", "UNSPECIFIED: unknown statement kind",
                 "UNSPECIFIED: no arm matched", "UNSPECIFIED: min / max of an empty list", "UNSPECIFIED: split with an empty separator",
